@@ -73,6 +73,16 @@ CLAIMED = {
             "Trusted: lease-store double incl. mini-Lua subset (a script outside the subset aborts the check with exit 2, never a verdict), millisecond store clock. Redis lease only (etcd election not exercised).",
             "deterministic simulation (virtual clock, lossy transport) + sequential lease model + porcupine history check",
             "DESIGN.md §3 C15"),
+    "C05": ("exploration",
+            "Real Channel for both back ends (disk cache over the in-memory simfs with channel-based mutexes, memory cache) driven by 20-60 seeded cache operations from several driver goroutines released one at a time by the scheduler (snapshot writer fed in chunks, log writer, writer replacement, SetRunId/DelRunId/Close, 1-3 readers at valid and invalid offsets that read/stall/close, collector passes, tiny segment sizes so rotation and collection happen constantly). Model = one keyed byte function per replication id + what was written so far: every delivered byte is checked, positions contiguous, valid readers eventually deliver what was written (bounded), invalidated readers deliver nothing else, IsValidOffset => NewReader works, GetRdb only offers complete snapshots, no operation hangs (bounded virtual time).",
+            "Trusted: simfs (POSIX-like in-memory FS), simsync (channel-based RWMutex replacing sync in pkg/store so that a blocked lock is durably blocked), keyed byte functions. Interleaving at operation granularity (engine A); lock-level scheduling (engine B) is not built: two residual races are left to the Go runtime (DESIGN.md §5).",
+            "deterministic simulation over an in-memory file system + reference byte model",
+            "DESIGN.md §3 C05"),
+    "C08": ("fault_enumeration",
+            "A real StoreChannel on simfs executes a seeded write workload while simfs journals every mutating operation; then for EVERY journal prefix (plus torn variants of a write in flight) a fresh image is rebuilt and a fresh Storer/StoreChannel opened on it and interrogated (StartPoint, range, GetRdb, IsValidOffset around every boundary, readers at the left end, inner offsets and the snapshot), followed by single-byte alterations of closed segments with verification on. Oracle from the property: one contiguous range, every served byte equals the source byte, nothing beyond what had been written, incomplete snapshots not offered, data behind a gap not served, altered segments refused with verification on, no call hangs. Workloads sampled; crash instants enumerated per workload.",
+            "Trusted: simfs journal/image reconstruction, process-death crash model (every completed FS operation persists, the one in flight persists as a prefix) as the property states; power loss is not modelled.",
+            "deterministic simulation + exhaustive enumeration of crash prefixes of the FS-operation journal",
+            "DESIGN.md §3 C08"),
 }
 
 NOT_APPLICABLE = {
